@@ -86,3 +86,17 @@ func trunc(s string, n int) string {
 	}
 	return s
 }
+
+func maxInt(a, b int) int {
+	if a > b {
+		return a
+	}
+	return b
+}
+
+func minInt(a, b int) int {
+	if a < b {
+		return a
+	}
+	return b
+}
